@@ -2057,7 +2057,7 @@ def canon(t):
 
 
 def _dt_safe(x):
-    """total and free of effects whatever the values are: names, constants, attribute chains, displays, identity / equality /
+    """total and free of effects whatever the values are: names, constants, x.__class__, displays, identity / equality /
     membership comparisons, boolean combinations, issubclass / isinstance / type, conditional expressions of such"""
     if not is_node(x):
         return False
@@ -2065,11 +2065,12 @@ def _dt_safe(x):
     if k in ('var', 'const', 'glob', 'bv'):
         return True
     if k == 'attr':
-        return _dt_safe(x[1])
+        # only what every object has: x.__class__ (x.a can raise for the wrong x, so a test on it is not free to move)
+        return x[2] == '__class__' and _dt_safe(x[1])
     if k in ('tuple', 'list'):
         return all(_dt_safe(y) for y in x[1])
     if k == 'cmp':
-        return x[1] in ('Is', 'IsNot', 'Eq', 'NotEq', 'In', 'NotIn') and _dt_safe(x[2]) and _dt_safe(x[3])
+        return x[1] in ('Is', 'IsNot', 'Eq', 'NotEq') and _dt_safe(x[2]) and _dt_safe(x[3])
     if k in ('and', 'or'):
         return all(_dt_safe(y) for y in x[1])
     if k == 'not':
